@@ -31,7 +31,7 @@ fn art<V>(v: V, os: Os, arch: Arch, i: usize) -> Artifact<V, (), Option<()>> { A
 pub fn inventory(thorough: bool) -> Report {
     let maxn = if thorough { 5 } else { 4 };
     let mut r = Report::new(
-        "every inventory with up to N artifacts over versions {0,1,2} (total order) resp. {0,1,2}x{0,1,2} (product order, incomparable pairs; up to 3 artifacts) x {linux, darwin} x {amd64, arm64}, duplicates allowed, every query (os, arch, requirement 'at most v'): resolve/partial_resolve return an artifact that matches os, arch and requirement and that no other matching artifact exceeds, and None only when nothing matches; inventory -> TOML -> inventory gives equal artifacts; checksum strings over a hex/non-hex alphabet around the valid lengths; non-trivial = queries with at least two matching artifacts",
+        "every inventory with up to N artifacts over versions {0,1,2} (total order) resp. {0,1,2}x{0,1,2} (product order, incomparable pairs; up to 3 artifacts) x {linux, darwin} x {amd64, arm64}, duplicates allowed, every query (os, arch, requirement 'at most v'): resolve/partial_resolve return an artifact that matches os, arch and requirement and that no other matching artifact exceeds, and None only when nothing matches; inventory -> TOML -> inventory gives equal artifacts; checksum strings over a hex/non-hex alphabet around the valid lengths; non-trivial = queries with at least two matching artifacts; the shipped semver instance: every subset of 7 versions (three of them pre-releases) x 9 requirements, result == highest version semver itself says matches",
         &format!("N <= {maxn} artifacts"),
     );
     let oss = [Os::Linux, Os::Darwin]; let archs = [Arch::Amd64, Arch::Arm64];
@@ -145,6 +145,24 @@ pub fn inventory(thorough: bool) -> Report {
         r.evaluations += 1;
         if s.parse::<Checksum<D2>>().is_ok() { r.violation("checksum_grammar", "checksum accepted/rejected against <algorithm>:<hex> with the digest's name and length", format!("{s:?}"), "false".into(), "true".into()); }
     } }
+    // ---- the shipped semver instance (feature inventory-semver): pre-release versions and requirements; oracle = semver's own matching, called directly
+    {
+        let versions = ["1.0.0", "1.2.0", "1.3.0-beta.1", "1.3.0", "2.0.0-rc.1", "2.0.0", "0.9.9"];
+        let reqs = ["^1.2", ">=1.0.0", "=1.3.0-beta.1", "<1.3.0", "^2.0.0-rc.0", "*", ">=1.3.0-alpha", "~1.2", "=3.0.0"];
+        for mask in 0u32..(1 << versions.len()) {
+            let mut inv: Inventory<semver::Version, (), Option<()>> = Inventory::new();
+            let present: Vec<semver::Version> = (0..versions.len()).filter(|i| mask >> i & 1 == 1).map(|i| semver::Version::parse(versions[i]).unwrap()).collect();
+            for (i, v) in present.iter().enumerate() { inv.push(Artifact { version: v.clone(), os: Os::Linux, arch: Arch::Arm64, url: format!("u{i}"), checksum: "x:00".parse::<Sum>().unwrap(), metadata: None }); }
+            for q in reqs {
+                let req = semver::VersionReq::parse(q).unwrap();
+                r.evaluations += 1; if present.iter().any(|v| !v.pre.is_empty()) { r.nontrivial += 1; }
+                let want = present.iter().filter(|v| req.matches(v)).max().cloned();
+                let got = inv.resolve(Os::Linux, Arch::Arm64, &req).map(|a| a.version.clone());
+                let pgot = inv.partial_resolve(Os::Linux, Arch::Arm64, &req).map(|a| a.version.clone());
+                if got != want || pgot != want { r.violation("resolve_semver", "with semver versions and requirements, resolve / partial_resolve return the highest version that MATCHES the requirement (pre-release rules of semver included)", format!("versions {:?} requirement {q}", present.iter().map(|v| v.to_string()).collect::<Vec<_>>()), format!("{:?}", want.map(|v| v.to_string())), format!("resolve {:?} partial_resolve {:?}", got.map(|v| v.to_string()), pgot.map(|v| v.to_string()))); }
+            }
+        }
+    }
     r.samples.push("versions [(0,1),(1,0),(1,1)] requirement <=(1,1) -> (1,1)".into());
     r
 }
